@@ -37,6 +37,10 @@ def tool(name):
 
 # ------------------------------------------------------------------ TLC side
 
+# select() calls of the histories: (query, tags); ([], []) is select() without arguments
+HIST_SELECTS = [([], []), (["grp", "*"], []), ([], ["t1"]), (["grp", "b"], []), (["grp", "*"], ["t2"])]
+
+
 def bounds(tier):
     if tier == "thorough":
         return dict(
@@ -45,13 +49,15 @@ def bounds(tier):
             select=dict(EnvSizes=[1, 2, 3, 7],
                         QuerySet=[[], ["*"], ["grp", "*"], ["grp", "b"], ["grp", "sub", "*"], ["grp", "sub", "d"],
                                   ["zz", "*"], ["a"], ["grp"], ["Size2", "*"]],
-                        TagSelSet=[[], ["t1"], ["t2"], ["t3"], ["t1", "t2"], ["t1", "t3"]]))
+                        TagSelSet=[[], ["t1"], ["t2"], ["t3"], ["t1", "t2"], ["t1", "t3"]]),
+            history=dict(MaxCalls=4, HistSelects=HIST_SELECTS))
     return dict(
         types=dict(Shapes=[[], [2], [3], [2, 3], [3, 2], [2, 2]], SecShapes=[[], [2, 3]],
                    ArrStarts=[1, 4], Steps=[1]),
         select=dict(EnvSizes=[2, 7],
                     QuerySet=[[], ["grp", "*"], ["grp", "b"], ["grp", "sub", "*"], ["zz", "*"]],
-                    TagSelSet=[[], ["t1"], ["t2"], ["t1", "t2"]]))
+                    TagSelSet=[[], ["t1"], ["t2"], ["t1", "t2"]]),
+        history=dict(MaxCalls=3, HistSelects=HIST_SELECTS))
 
 
 def tla_set(xs, inner):
@@ -63,7 +69,8 @@ def tla_seq(xs):
 
 
 def run_family(wd, family, b, backends, workers):
-    d = dict(Shapes=[[]], SecShapes=[[]], ArrStarts=[1], Steps=[1], EnvSizes=[1], QuerySet=[[]], TagSelSet=[[]])
+    d = dict(Shapes=[[]], SecShapes=[[]], ArrStarts=[1], Steps=[1], EnvSizes=[1], QuerySet=[[]], TagSelSet=[[]],
+             MaxCalls=1, HistSelects=[([], [])])
     d.update(b[family])
     mod = "ExportMC_" + family
     mc = [f"---- MODULE {mod} ----", "EXTENDS Export",
@@ -74,6 +81,7 @@ def run_family(wd, family, b, backends, workers):
           "MCEnvSizes == " + tla_set(d["EnvSizes"], str),
           "MCQuerySet == " + tla_set(d["QuerySet"], tla_seq),
           "MCTagSelSet == " + tla_set(d["TagSelSet"], lambda t: tla_set(t, C.tla_str)),
+          "MCHistSelects == " + tla_set(d["HistSelects"], lambda qt: "<<" + tla_seq(qt[0]) + ", " + tla_set(qt[1], C.tla_str) + ">>"),
           "MCBackends == " + tla_set(backends, C.tla_str),
           "===="]
     os.makedirs(wd, exist_ok=True)
@@ -89,6 +97,8 @@ def run_family(wd, family, b, backends, workers):
   EnvSizes <- MCEnvSizes
   QuerySet <- MCQuerySet
   TagSelSet <- MCTagSelSet
+  MaxCalls = {d["MaxCalls"]}
+  HistSelects <- MCHistSelects
   Backends <- MCBackends
 INIT Init
 NEXT Next
@@ -229,18 +239,20 @@ def exporter(be):
             "fortran": K.ExportConfigFortran, "rust": K.ExportConfigRust}[be]
 
 
-def do_export(rec, env):
-    be, opt, rid = rec["be"], rec["opt"], rec["_rid"]
+def make_exporter(rec, env):
     kw = {}
-    if not opt["rename"]:
+    if not rec["opt"]["rename"]:
         kw["rename"] = False
-    elif rid % 3 == 0:
+    elif rec["_rid"] % 3 == 0:
         kw["rename"] = True                      # explicit and default spelling of the option
-    exp = exporter(be)(env, **kw)
-    q = rec["query"] or None
-    t = sorted(rec["tags"]) or None
-    if q is not None or t is not None:
-        exp.select(query=q, tags=t)
+    return exporter(rec["be"])(env, **kw)
+
+
+def call_select(exp, query, tags):
+    exp.select(query=query or None, tags=sorted(tags) or None)
+
+
+def parse_kwargs(be, opt, rid):
     pk = {}
     if be in ("c", "cpp"):
         if rid % 2:
@@ -257,7 +269,25 @@ def do_export(rec, env):
     elif be in ("json", "yaml", "toml"):
         if not opt["units"] or rid % 2:
             pk["units"] = opt["units"]
-    return exp.parse(**pk)
+    return pk
+
+
+def do_export(rec, env):
+    """One exporter object per scenario.  A scenario of family 'history' first replays the calls before its parse."""
+    be, rid = rec["be"], rec["_rid"]
+    exp = make_exporter(rec, env)
+    if "_hist" in rec:
+        for c in rec["_hist"]["calls"][:rec["_hist"]["k"]]:
+            if c["op"] == "select":
+                call_select(exp, c["query"], c["tags"])     # a select() that raises is the failure of this scenario too
+            else:
+                try:
+                    exp.parse(**parse_kwargs(be, c["opt"], rid))
+                except Exception:
+                    pass                                     # judged in the scenario of that parse
+    elif rec["query"] or rec["tags"]:
+        call_select(exp, rec["query"], rec["tags"])
+    return exp.parse(**parse_kwargs(be, rec["opt"], rid))
 
 
 # ------------------------------------------------------------------ observations
@@ -889,6 +919,19 @@ def run_chunk(args):
 
 # ------------------------------------------------------------------ run
 
+def describe_history(rec):
+    if "_hist" not in rec:
+        return ""
+    out = []
+    for c in rec["_hist"]["calls"][:rec["_hist"]["k"] + 1]:
+        if c["op"] == "select":
+            out.append(f"select(query={c['query'] or None!r}, tags={sorted(c['tags']) or None!r})")
+        else:
+            o = c["opt"]
+            out.append("parse(" + ", ".join(f"{k}={o[k]!r}" for k in ("units", "define", "const", "bexport") if o[k] not in (True, [])) + ")")
+    return "  [one exporter object: " + "; ".join(out) + "]"
+
+
 def replay_one(path):
     body = json.load(open(path))
     rec = body["scenario"]
@@ -924,16 +967,29 @@ def run(replay=None):
     backends = [x for x in os.environ.get("C19_BACKENDS", ",".join(ALL_BACKENDS)).split(",") if x in ALL_BACKENDS]
     # ---- 1. TLC: scenarios + lemmas (two families side by side)
     t0 = time.time()
-    with ThreadPoolExecutor(2) as ex:
-        w = max(1, C.NCPU // 2)
+    with ThreadPoolExecutor(3) as ex:
+        w = max(1, C.NCPU // 3)
         f1 = ex.submit(run_family, os.path.join(wd, "tlc_types"), "types", b, backends, w)
         f2 = ex.submit(run_family, os.path.join(wd, "tlc_select"), "select", b, backends, w)
-        r1, r2 = f1.result(), f2.result()
+        f3 = ex.submit(run_family, os.path.join(wd, "tlc_history"), "history", b, backends, w)
+        r1, r2, r3 = f1.result(), f2.result(), f3.result()
     pools = [r for r in r1.records if "pools" in r]
     if not pools:
         raise C.MachineryError("Export.tla did not print its pools")
     check_pools(pools[0]["pools"])
     recs = [r for r in r1.records + r2.records if "expect" in r]
+    nhist = 0
+    for h in r3.records:
+        if "calls" not in h:
+            continue
+        nhist += 1
+        light = [{k: c[k] for k in ("op", "query", "tags", "opt") if k in c} for c in h["calls"]]
+        for k, c in enumerate(h["calls"]):
+            if c["op"] == "parse":                      # one scenario per parse of the history
+                recs.append({"family": "history", "be": h["be"], "class": c["class"], "feat": sorted(set(c["feat"]) | set(c["hfeat"])),
+                             "env": h["env"], "query": c["query"], "tags": c["tags"], "opt": c["opt"],
+                             "expect": [dict(e, feat=sorted(set(e["feat"]) | set(c["hfeat"]))) for e in c["expect"]],
+                             "unselected": c["unselected"], "_hist": {"calls": light, "k": k}})
     for i, r in enumerate(recs):
         r["_rid"] = i + 1
         r["_seed"] = sd
@@ -979,7 +1035,7 @@ def run(replay=None):
         items = a.get("items")
         if a["status"] == "pending":
             items = judge(rec, obs_by_rid[rec["_rid"]])
-        scen = {k: rec[k] for k in ("family", "be", "class", "env", "query", "tags", "opt", "expect", "unselected", "feat", "_rid", "_seed")}
+        scen = {k: rec[k] for k in ("family", "be", "class", "env", "query", "tags", "opt", "expect", "unselected", "feat", "_rid", "_seed", "_hist") if k in rec}
         pb = per_be.setdefault(rec["be"], {"scenarios": 0, "ok": 0, "fail": 0})
         pb["scenarios"] += 1
         for st, tags, failure, exp, ob, clause in items:
@@ -992,12 +1048,13 @@ def run(replay=None):
                 pb["fail"] += 1
                 if dump is not None:
                     dump.append({"be": rec["be"], "failure": failure, "tags": sorted(tags), "expected": exp, "observed": ob,
-                                 "dip": a["dip"], "export": a.get("export"), "query": rec["query"], "seltags": rec["tags"], "opt": rec["opt"]})
-                V.fail(scen, exp, ob, clause + "  [DIP: " + a["dip"].replace("\n", " / ")[:200] + "]", tags=tags, failure=failure)
+                                 "dip": a["dip"], "export": a.get("export"), "query": rec["query"], "seltags": rec["tags"], "opt": rec["opt"],
+                                 "history": describe_history(rec)})
+                V.fail(scen, exp, ob, clause + describe_history(rec) + "  [DIP: " + a["dip"].replace("\n", " / ")[:200] + "]", tags=tags, failure=failure)
         for e in rec["expect"]:
-            if e["shape"] or rec["query"] or rec["tags"] or not rec["opt"]["rename"] or e["store"] == "macro":
+            if e["shape"] or rec["query"] or rec["tags"] or not rec["opt"]["rename"] or e["store"] == "macro" or rec.get("_hist", {}).get("k"):
                 nontrivial.add((rec["be"], json.dumps(rec["env"][e["param"] - 1], sort_keys=True), rec["query"], tuple(rec["tags"]),
-                                json.dumps(rec["opt"], sort_keys=True)))
+                                json.dumps(rec["opt"], sort_keys=True), json.dumps(rec.get("_hist"), sort_keys=True)))
     if dump is not None:
         with open(os.environ["C19_DUMP"], "w") as f:
             json.dump(dump, f, indent=1, default=str)
@@ -1007,12 +1064,14 @@ def run(replay=None):
                         "export": (a.get("export") or "")[:300],
                         "expect": [{k: e[k] for k in ("sym", "store", "tclass", "shape", "unit")} for e in rec["expect"]]})
     V.cov.update({
-        "states": r1.distinct + r2.distinct, "transitions": r1.generated + r2.generated,
+        "states": r1.distinct + r2.distinct + r3.distinct, "transitions": r1.generated + r2.generated + r3.generated,
+        "histories": nhist,
         "traces_validated_against_impl": sum(1 for a in res if a["status"] in ("judged", "pending")),
         "evaluations": evals,
         "distinct_nontrivial": len(nontrivial),
         "rule": "TLC enumerates every scenario of spec/Export.tla inside the bounds (family 'types': one parameter of every DIP type x width x sign "
-                "x shape x value pattern from the pools; family 'select': sub-lists of a 7-parameter pool x query x tag selector), for every back-end "
+                "x shape x value pattern from the pools; family 'select': sub-lists of a 7-parameter pool x query x tag selector; family 'history': "
+                "every history of MaxCalls select()/parse() calls on one exporter object over a 4-parameter environment, one scenario per parse), for every back-end "
                 "and applicable option (rename, units, define, const, bash export); every scenario is exported by the real code and read back by the "
                 "format's own reader; evaluations = compared parameters + one selection comparison per scenario; non-trivial = distinct "
                 "(back-end, parameter, selection, options) with an array, a selection, rename off or a macro",
@@ -1020,7 +1079,7 @@ def run(replay=None):
         "classes": classes, "not_constructed_by_DIP": notbuilt, "shadowed_by_compile_error": shadowed,
         "per_backend": per_be, "compilations": ncomp,
         "timing_s": {"tlc": round(t_tlc, 1), "export_and_load": round(t_a, 1), "reader_programs": round(t_b, 1)},
-        "lemmas": "LemmaEnv, LemmaNames, LemmaShapes, LemmaSelection on every scenario; LemmaTypes as ASSUME",
+        "lemmas": "LemmaEnv, LemmaNames, LemmaShapes, LemmaSelection on every scenario; LemmaHistory on every history; LemmaTypes as ASSUME",
     })
     V.assumptions += [
         "gcc/g++/gfortran/rustc/bash/json/PyYAML/tomllib on x86-64 are the readers (long double = 16 bytes, real(16) = binary128)",
